@@ -3,5 +3,6 @@
 (* gives (impl) and the verdict the property statement requires (req).                                            *)
 EXTENDS Verify, Json
 
-Emit == (pc = "done" /\ Hist) => PrintT(ToJson([case |-> c, impl |-> verdict, req |-> Required(c), failing |-> IF c.fam = "mut" THEN {} ELSE Failing(c)]))
+Emit == (pc = "done" /\ Hist) => PrintT(ToJson([case |-> c, impl |-> verdict, req |-> Required(c), failing |-> IF c.fam = "mut" THEN {} ELSE Failing(c),
+                                                sched |-> IF c.fam = "race" THEN hist ELSE <<>>]))
 =============================================================================
